@@ -260,6 +260,13 @@ class FST:
             for transition in pair:
                 state_q = transition[0]
                 symbol = transition[1]
+                # The terminal of an end rule is a symbol, not a word
+                if len(symbol) == 0:
+                    symbol = "epsilon"
+                elif len(symbol) == 1:
+                    symbol = symbol[0]
+                else:
+                    symbol = tuple(symbol)
                 new_rules.append(EndRule(
                     self._triple(state_p, terminal, state_q, True),
                     symbol))
